@@ -11,7 +11,7 @@ import sympy as sp
 
 from .core import AnalysisError, norm
 from . import nnm, symx
-from .symx import E, I, T, S, eval_val, val_atoms, rows, is_zero, fmt_cond, cond_atoms, eval_cond
+from .symx import Tx, E, I, T, S, eval_val, val_atoms, rows, is_zero, fmt_cond, cond_atoms, eval_cond
 from .npflow import Arr, Sc, Tup, TOP, CONST, NINF
 from .astutil import walk_local
 
@@ -220,18 +220,29 @@ def null_mean_sites(idx):
     if not isinstance(ret, T) or len(ret.items) != 4:
         raise AnalysisError("sjm does not return a 4-tuple")
     sites.append(("sjm", ret.items[3], sjm, ret))
-    # agrapa
-    ag = idx.func(REL, "NonnegMean.agrapa")
-    t3 = nnm.make_tx(idx)
-    for st in ag.body:
-        if isinstance(st, ast.Assign) and len(st.targets) == 1 and isinstance(st.targets[0], ast.Name):
-            try:
-                v = t3.expr(st.value)
-            except symx.Unsupported:
-                continue
-            t3._assign(st.targets[0], v)
-            if st.targets[0].id == "t_adj":
-                sites.append(("agrapa", v, st, None))
+    # any other method that recomputes a null mean itself: a local whose value is selected by np.isfinite(N)
+    # and built from the exclusive running sum of the sample (today: agrapa's adjusted null mean)
+    for mname in nnm.registry(idx)["estim"] + nnm.registry(idx)["bet"]:
+        fd = idx.func(REL, f"NonnegMean.{mname}")
+        t3 = nnm.make_tx(idx)
+        for st in nnm.flatten(fd.body):
+            if isinstance(st, ast.Assign) and len(st.targets) == 1 and isinstance(st.targets[0], ast.Name):
+                try:
+                    v = t3.expr(st.value)
+                except symx.Unsupported:
+                    continue
+                t3._assign(st.targets[0], v)
+                # a direct recomputation (not a call of sjm, which is site 1)
+                if any(isinstance(c, ast.Call) and norm(c.func) == "self.sjm" for c in ast.walk(st.value)):
+                    continue
+                pv = symx.prune(v)
+                if FIN in val_atoms(pv):
+                    leaf = eval_val(pv, {a: True for a in val_atoms(pv)})
+                    leaf_inf = eval_val(pv, {a: (a != FIN) for a in val_atoms(pv)})
+                    # "a null mean": for infinite N it is t itself; for finite N it is built from the exclusive running sum
+                    if isinstance(leaf, sp.Basic) and any(scan_name(q) == "SX" for q in sp.preorder_traversal(leaf)) \
+                            and isinstance(leaf_inf, sp.Basic) and is_zero(leaf_inf - t):
+                        sites.append((mname, v, st, None))
     return sites
 
 
@@ -259,25 +270,8 @@ def rule_null_mean(chk, idx, rule, tfs):
         chk.ob(rule, W(name), "null-mean-formula", ok_all,
                "mu_j == (N t - sum_{k<j} x_k)/(N-j+1) for finite N (exclusive running sum), t otherwise",
                node=node, **detail)
-    # wald_sprt recomputes m and etas itself
-    tf = tfs.get("wald_sprt")
-    if tf is not None and "m" in tf.an.tx.env:
-        val = symx.prune(tf.an.tx.env["m"])
-        ok_all, detail = True, {}
-        for row in rows(val_atoms(val)):
-            fin = row.get(FIN)
-            if fin is None:
-                ok_all = False
-                break
-            leaf = eval_val(val, row)
-            if not is_zero(leaf - mu(bool(fin))):
-                ok_all = False
-            detail["finite" if fin else "infinite"] = sp.sstr(leaf)[:200]
-        found += 1
-        chk.ob(rule, W("wald_sprt"), "null-mean-formula", ok_all,
-               "mu_j == (N t - sum_{k<j} x_k)/(N-j+1) for finite N (exclusive running sum), t otherwise",
-               node=tf.an.fdef, **detail)
-    chk.need(rule, found, 3, "sites computing the null conditional mean")
+    # (wald_sprt computes its mean in-line: covered by the factor identity, rule_factor_and_composition)
+    chk.need(rule, found, 2, "sites computing the null conditional mean (sjm and every direct recomputation)")
 
 
 # ---------------------------------------------------------------------------
@@ -346,36 +340,26 @@ def classify_overrides(chk, tf: TestFacts, rule, require=None):
             continue
         if isinstance(v, E) and sp.sstr(v.e) in INF_TXT:
             c = tx.child(dict(tx.env)).cond(idx_node)
-            # mask must be "null conditional mean < 0" with the validated mean
-            ok = False
             shown = fmt_cond(c)
-            for fin in (True, False):
-                pass
-            m_val = tx.env.get("m")
-            if m_val is None:
-                chk.ob(rule, W(name), key, False, "+inf override is masked by `mu_j < 0`", node=st,
-                       reason="no null mean `m` in scope")
-                continue
-            want = tx.child({"m": m_val}).cond(ast.parse("m < 0", mode="eval").body)
+            want = Tx(env={"MU": spec_mean_val(spec)}).cond(ast.parse("MU < 0", mode="eval").body)
             ok = cond_equiv(c, want)
-            # and m must be the validated null mean of this method
-            mean_ok = True
-            for row in rows(val_atoms(m_val)):
-                fin = row.get(FIN)
-                leaf = eval_val(m_val, row)
-                if fin is None or not is_zero(leaf - spec["mean"](bool(fin))):
-                    if not (spec.get("iid") and is_zero(leaf - spec["mean"](False))):
-                        mean_ok = False
             kinds.append(("inf-mask", shown, None))
-            chk.ob(rule, W(name), key, ok and mean_ok,
+            chk.ob(rule, W(name), key, ok,
                    "+inf (p = 0) is assigned only where the null conditional mean is negative (impossible under "
                    "the null), using the method's own null mean", node=st, statement=norm(st)[:160],
-                   mask=shown, mean_is_null_mean=mean_ok)
+                   mask=shown, oracle=fmt_cond(want))
             continue
         chk.ob(rule, W(name), key, False,
                "override assigns neither a constant in [0,1] nor +inf under a null-impossibility mask",
                node=st, statement=norm(st)[:160], value=repr(v)[:120])
     return kinds
+
+
+def spec_mean_val(spec):
+    """the specified null mean of a test as a term (selected by np.isfinite(N) unless the test is IID-only)"""
+    if spec.get("iid"):
+        return E(spec["mean"](False))
+    return I(("atom", FIN), E(spec["mean"](True)), E(spec["mean"](False)))
 
 
 def nnm_const_int(n):
@@ -388,7 +372,7 @@ def rule_boundary_conventions(chk, tf: TestFacts, rule):
     """C12.R4: p = 1 where mu_j > u, p = 0 once the total exceeds N t (alpha/betting)."""
     name = tf.name
     an, tx = tf.an, tf.an.tx
-    m_val = tx.env.get("m")
+    spec = SPEC[name]
     have_gt_u = False
     have_last = False
     for st, target, idx_node, val_node in an.stores:
@@ -396,9 +380,9 @@ def rule_boundary_conventions(chk, tf: TestFacts, rule):
             v = tx.child(dict(tx.env)).expr(val_node)
         except symx.Unsupported:
             continue
-        if isinstance(v, E) and v.e == 0 and m_val is not None:
+        if isinstance(v, E) and v.e == 0:
             c = tx.child(dict(tx.env)).cond(idx_node)
-            want = tx.child({"m": m_val, "u": E(u)}).cond(ast.parse("m > u", mode="eval").body)
+            want = Tx(env={"MU": spec_mean_val(spec), "U": E(u)}).cond(ast.parse("MU > U", mode="eval").body)
             if cond_equiv(c, want):
                 have_gt_u = True
         if nnm_const_int(idx_node) == -1 and isinstance(val_node, ast.IfExp):
